@@ -57,7 +57,7 @@ func (r *runner) makePlain(op Op, a *reg, _ int) *reg {
 		panic(err)
 	}
 	r.rec.Classf("pt-scale-mode=%d", op.PtScale)
-	return &reg{plain: pt, vals: vals, logSlots: a.logSlots, eps: eps, scale: sc, level: lvl, deg: 0}
+	return &reg{plain: pt, vals: vals, logSlots: a.logSlots, eps: eps, scale: sc, level: lvl, deg: 0, exact: ratFromFloat(&pt.Scale.Value).Cmp(sc) == 0}
 }
 
 func (r *runner) stepMulThenAdd(op Op, key, cls string, ia int) error {
@@ -69,10 +69,19 @@ func (r *runner) stepMulThenAdd(op Op, key, cls string, ia int) error {
 		return nil
 	}
 	mode := "reg"
+	r.inExact = a.exact
+	snapA := a.ct.CopyNew()
+	var bCt, snapB *rlwe.Ciphertext
 	finish := func(exp *reg, io int, err error) error {
 		k := key + ":" + mode
 		if err != nil {
 			return h.Failf(k+":unexpected-error", "%v", err)
+		}
+		if !a.ct.Equal(snapA) {
+			return h.Failf(k+":op0-modified", "the call changed op0")
+		}
+		if bCt != nil && bCt != a.ct && !bCt.Equal(snapB) {
+			return h.Failf(k+":op1-modified", "the call changed op1")
 		}
 		if verr := r.verify(k, exp.ct, exp, true); verr != nil {
 			return verr
@@ -132,6 +141,10 @@ func (r *runner) stepMulThenAdd(op Op, key, cls string, ia int) error {
 			return nil
 		}
 		o := r.regs[io]
+		r.inExact = r.inExact && b.exact && o.exact
+		if b.ct != nil {
+			bCt, snapB = b.ct, b.ct.CopyNew()
+		}
 		lvl := min3(a.level, b.level, o.level)
 		av, bv, ov := expand(a.vals, ls), expand(b.vals, ls), expand(o.vals, ls)
 		ma, mb, mo := maxAbs(av), maxAbs(bv), maxAbs(ov)
@@ -253,6 +266,7 @@ func (r *runner) stepMulThenAdd(op Op, key, cls string, ia int) error {
 			return nil
 		}
 		o := r.regs[io]
+		r.inExact = r.inExact && o.exact
 		lvl := a.level
 		if o.level < lvl {
 			lvl = o.level
@@ -378,5 +392,79 @@ func (r *runner) probeUint(op Op, a *reg) (err error) {
 	default:
 		_ = e.eval.MulThenAdd(in, uint(op.Re), out)
 	}
+	return nil
+}
+
+// stepRotateHoisted rotates op0 by every rotation of the case at once (RotateHoisted / RotateHoistedNew) and checks
+// each output like a single Rotate; one of them is kept as a register.
+func (r *runner) stepRotateHoisted(op Op, key string, ia int) error {
+	e := r.e
+	a := r.regs[ia]
+	if a.deg != 1 {
+		r.skip("automorphism-degree")
+		return nil
+	}
+	r.inExact = a.exact
+	rots := append([]int(nil), e.rots...)
+	mode := op.OutMode
+	if mode != "new" {
+		mode = "fresh"
+	}
+	if !e.fits(a.m(), a.eps+e.ksNoise(a.level)/ratFloat(a.scale), a.scale, a.level) {
+		r.skip("overflow")
+		return nil
+	}
+	snapA := a.ct.CopyNew()
+	var outs map[int]*rlwe.Ciphertext
+	var err error
+	if mode == "new" {
+		outs, err = e.eval.RotateHoistedNew(a.ct, rots)
+	} else {
+		// pre-allocated receivers: fresh ones, at a higher or equal level (the method resizes them to op0's level);
+		// the rotation that is the identity copies op0 and gets a receiver of op0's level
+		outs = map[int]*rlwe.Ciphertext{}
+		for _, k := range rots {
+			lvl := e.params.MaxLevel() - op.FDrop
+			if lvl < a.level || e.params.GaloisElement(k) == 1 {
+				lvl = a.level
+			}
+			outs[k] = ckks.NewCiphertext(e.params, 1, lvl)
+		}
+		err = e.eval.RotateHoisted(a.ct, rots, outs)
+	}
+	k0 := key + ":" + mode
+	if err != nil {
+		return h.Failf(k0+":unexpected-error", "%v", err)
+	}
+	if !a.ct.Equal(snapA) {
+		return h.Failf(k0+":op0-modified", "RotateHoisted changed its input")
+	}
+	keep := rots[op.K%len(rots)]
+	var kept *reg
+	done := map[int]bool{}
+	for _, k := range rots {
+		if done[k] {
+			continue
+		}
+		done[k] = true
+		out, ok := outs[k]
+		if !ok || out == nil {
+			return h.Failf(k0+":missing-output", "no output for rotation %d", k)
+		}
+		exp := &reg{ct: out, logSlots: a.logSlots, level: a.level, deg: 1, scale: a.scale, eps: a.eps, prod: a.prod, resc: a.resc, vals: rotate(a.vals, k)}
+		if e.params.GaloisElement(k) != 1 {
+			exp.eps += e.ksNoise(a.level) / ratFloat(a.scale)
+		}
+		if verr := r.verify(k0, out, exp, true); verr != nil {
+			return verr
+		}
+		if k == keep {
+			kept = exp
+		}
+	}
+	r.place(op, "new", ia, 0, kept)
+	r.executed = append(r.executed, "RotateHoisted:")
+	r.rec.Class("op=RotateHoisted:")
+	r.rec.Class("out=" + mode)
 	return nil
 }
